@@ -698,6 +698,61 @@ def check_union_field_reads(ctx):
                           '%s reads .%s on %s.%s, which the decoder may have built as %s - that class has no such attribute and nothing before the read tells the alternatives apart: AttributeError -> General Failure for a legal request' % (U(a)[:70], a.attr, owner, a.value.attr, '/'.join(lacking)))
     ctx.analysed['tag_selected_field_reads'] = n
 
+
+def check_single_row_queries(ctx):
+    """C13.R16: a query that demands exactly one / at most one row filters on a column the schema keeps unique."""
+    PIEOBJ_ = 'kmip/pie/objects.py'
+    ctx.rule('C13.R16', 'every query of the engine that ends in .one() / .one_or_none() / .scalar() / .scalar_one() / .scalar_one_or_none() - which raise MultipleResultsFound when several rows match - filters on a column that the schema keeps unique (primary_key=True or unique=True in kmip/pie/objects.py, i.e. the unique identifier): nothing stops two rows from carrying the same name, group or any other attribute value, and the library exception is not a KMIP error, so the request and every later one touching those rows would be answered with General Failure')
+    pt = ctx.src.tree(PIEOBJ_)
+    unique = {}
+    for c in [n for n in ast.walk(pt) if isinstance(n, ast.ClassDef)]:
+        for st in c.body:
+            if isinstance(st, ast.Assign) and isinstance(st.value, ast.Call) and (call_name(st.value) or '').split('.')[-1] == 'Column' and isinstance(st.targets[0], ast.Name):
+                if any(k.arg in ('primary_key', 'unique') and isinstance(k.value, ast.Constant) and k.value.value is True for k in st.value.keywords):
+                    unique.setdefault(c.name, set()).add(st.targets[0].id)
+    ctx.count('unique_columns', sum(len(v) for v in unique.values()), 2)
+    ucols = set(x for v in unique.values() for x in v)
+    from ..inline import flat_methods
+    c = get_class(ctx.src.tree(ENGINE), 'KmipEngine')
+    n = 0
+    for name, fn in sorted(flat_methods(c)[0].items()):
+        for call in walk_local(fn):
+            if not (isinstance(call, ast.Call) and isinstance(call.func, ast.Attribute) and call.func.attr in ('one', 'one_or_none', 'scalar', 'scalar_one', 'scalar_one_or_none') and not call.args):
+                continue
+            # walk the receiver chain: query(...).filter(...)....
+            x = call.func.value
+            filters, is_query = [], False
+            while isinstance(x, ast.Call) and isinstance(x.func, ast.Attribute):
+                if x.func.attr in ('filter', 'filter_by', 'where'):
+                    filters.append(x)
+                if x.func.attr == 'query':
+                    is_query = True
+                x = x.func.value
+            if not is_query:
+                continue
+            n += 1
+            cols = set()
+            for fcall in filters:
+                for a in fcall.args:
+                    p = cmp_parts_(a)
+                    if p and p[1] == 'Eq':
+                        for side in (p[0], p[2]):
+                            if isinstance(side, ast.Attribute) and not is_self_attr(side):
+                                cols.add(side.attr)
+                for k in fcall.keywords:
+                    if fcall.func.attr == 'filter_by' and k.arg:
+                        cols.add(k.arg)
+            ok = bool(cols & ucols) or bool(cols & set('_' + u for u in ucols))
+            ctx.check(ok, 'C13.R16', 'KmipEngine.%s|.%s() on a filter over %s' % (name, call.func.attr, '/'.join(sorted(cols)) or 'nothing'), '%s:%s KmipEngine.%s' % (ENGINE, call.lineno, name),
+                      'the single-row query filters on the unique column %s' % '/'.join(sorted(cols & ucols)),
+                      '.%s() is applied to a query filtered on %s, none of which the schema keeps unique: as soon as two rows match (nothing prevents that) it raises MultipleResultsFound -> General Failure for this and every later request that names the value' % (call.func.attr, '/'.join(sorted(cols)) or 'no column'))
+    ctx.count('single_row_queries', n, 2)
+
+
+def cmp_parts_(e):
+    from ..guards import cmp_parts
+    return cmp_parts(e)
+
 def run(ctx):
     src = ctx.src
     ai = EngineAI.shared(src)
@@ -935,6 +990,7 @@ def run(ctx):
     check_table_lookup_results(ctx)
     check_library_value_errors(ctx)
     check_union_field_reads(ctx)
+    check_single_row_queries(ctx)
     from .c05 import check_big_integer_columns
     check_big_integer_columns(ctx, 'C13.R14', ' (shared with C05.R13)')
     ctx.not_decided += ['implicit exceptions of third-party code for particular values (cryptography rejecting a nonce length, unpadding failure with a wrong key)']
